@@ -217,6 +217,7 @@ func fieldDisciplineObl(w *World, u *Unit, sp *ssa.Package, fd FieldDiscipline) 
 
 func (g *gen) runLemma() {
 	ct := g.ct
+	g.w.curUnit = g.unit
 	g.ensureSort(sErr)
 	if sp := g.w.pkgs[ct.Pkg]; sp != nil {
 		g.w.lemmaPkg = sp.Pkg
